@@ -190,7 +190,7 @@ def run_special(kind, pid, tier, seed, eng, workdir, log, build):
     elif kind == "tsan":
         tdir = os.path.join(HARNESS, "target-tsan")
         ok = build([eng["pkg"]], profile="verif", toolchain="nightly", target_dir=tdir,
-                   extra_env={"RUSTFLAGS": "-Zsanitizer=thread --cfg excsn_fibre_verif"},
+                   extra_env={"RUSTFLAGS": "-Zsanitizer=thread --cfg excsn_fibre_verif --cfg excsn_fibre_verif_tsan"},
                    extra_args=["-Zbuild-std", "--target", "x86_64-unknown-linux-gnu", "--bin", eng["bin"]])
         if not ok:
             notes.append("tsan build failed")
